@@ -72,5 +72,33 @@ def encodeFields : List Field → List J → List (String × J)
 def decodeFields (fs : List Field) (obj : List (String × J)) : Option (List J) :=
   fs.mapM (fun f => f.get (lookup f.key obj))
 
+/-! ### numbers that may not be finite (the indicators: `f32` and `Option<f32>` fields) -/
+
+/-- an `f32` as serde_json sees it: a finite decimal, or NaN / ±inf -/
+inductive F32J where
+  | fin (neg : Bool) (mant : Nat) (exp : Int)
+  | nonfinite
+  deriving DecidableEq, Repr, Inhabited
+
+/-- serde_json writes NaN and the infinities as `null` -/
+def F32J.enc : F32J → J
+  | .fin n m e => .num n m e
+  | .nonfinite => .null
+
+/-- a field of type `f32` does not accept `null` -/
+def F32J.dec : J → Option F32J
+  | .num n m e => some (.fin n m e)
+  | _ => none
+
+/-- a field of type `Option<f32>` reads `null` as `None` -/
+def F32J.decOpt : J → Option (Option F32J)
+  | .null => some none
+  | .num n m e => some (some (.fin n m e))
+  | _ => none
+
+def F32J.encOpt : Option F32J → J
+  | none => .null
+  | some x => x.enc
+
 end Codec
 end Cte
